@@ -167,9 +167,10 @@ template <class S> static void oracle_hesseig(int n, const std::vector<double>& 
         if (nrm > 0) note_ratio(4, res / (n * eps * nrm));
         if (std::fabs(xn - 1) > C_UNIT * n * eps) { out.fail("hesseig-unit", std::string("UpperHessenbergEigen<") + SName<S>::get() + ">: eigenvector " + str(j) + " has norm " + str((double) xn), rj); return; }
         // a 2x2 diagonal block that UpperHessenbergSchur left unsplit but whose extracted imaginary part is exactly 0: both values are
-        // flagged real, and the real-eigenvalue back-substitution then ignores the block's sub-diagonal entry (finding F20)
+        // flagged real, and the real-eigenvalue back-substitution then ignores the block's sub-diagonal entry (finding F20, fixed; m_matT is
+        // not resized on the zero-matrix early exit, hence the size guard)
         const auto& MT = SpectraVerifAccess::matT(eig);
-        const bool unsplit = ev[j].imag() == S(0) && ((j + 1 < n && MT(j + 1, j) != S(0)) || (j > 0 && MT(j, j - 1) != S(0)));
+        const bool unsplit = MT.rows() == n && MT.cols() == n && ev[j].imag() == S(0) && ((j + 1 < n && MT(j + 1, j) != S(0)) || (j > 0 && MT(j, j - 1) != S(0)));
         if (res > C_RES * n * eps * nrm && unsplit) { out.fail("hesseig-residual-unsplit-block", std::string("UpperHessenbergEigen<") + SName<S>::get() + ">: ||H x - lambda x|| = " + str((double) res) + " for pair " + str(j) + ": eigenvalue reported real (imag == 0) although it comes from an unsplit 2x2 block of the Schur form", rj); return; }
         if (res > C_RES * n * eps * nrm) { out.fail("hesseig-residual", std::string("UpperHessenbergEigen<") + SName<S>::get() + ">: ||H x - lambda x|| = " + str((double) res) + " for pair " + str(j) + " exceeds " + str((double) C_RES) + "*n*eps*||H||_F = " + str((double) (C_RES * n * eps * nrm)), rj); return; }
     }
